@@ -424,12 +424,20 @@ func JudgeC21(s *Step) *Verdict {
 			}
 		}
 	}
-	// an update through a linked name is what every name shows
-	if len(s.Out.Wrote) > 0 && s.Out.Err == "" && s.Ev.Op != "mkfile" && s.Ev.Op != "mkman" {
+	// an update through a linked name is what every name shows: content and attributes
+	// (the client read the entry, changed one thing and wrote all of it back)
+	if s.Out.Err == "" && (len(s.Out.Wrote) > 0 || s.Out.HasMode) && s.Ev.Op != "mkfile" && s.Ev.Op != "mkman" {
 		if n, ok := s.Model[s.Ev.P]; ok && n.Link != 0 {
 			for _, other := range names[n.Link] {
-				if e := s.Post.Get(other); e != nil && strings.Join(e.Chunks, ",") != strings.Join(s.Out.Wrote, ",") {
+				e := s.Post.Get(other)
+				if e == nil {
+					continue
+				}
+				if strings.Join(e.Chunks, ",") != strings.Join(s.Out.Wrote, ",") {
 					return &Verdict{"update-not-visible-through-link:" + oc, fmt.Sprintf("%s wrote %v through %s but %s shows %v", s.Ev, s.Out.Wrote, s.Ev.P, other, e.Chunks)}
+				}
+				if s.Out.HasMode && e.Mode != s.Out.WroteMode {
+					return &Verdict{"attribute-update-not-visible-through-link:" + oc, fmt.Sprintf("%s wrote mode %o through %s and was answered success, but %s shows mode %o", s.Ev, s.Out.WroteMode, s.Ev.P, other, e.Mode)}
 				}
 			}
 		}
